@@ -8,6 +8,7 @@ from pathlib import Path
 import numpy as np
 
 from .. import games, seams
+from .. import prelude
 from ..core import Sim
 from ..simfs import SimFS
 
@@ -65,6 +66,7 @@ def run(sim: Sim) -> None:
     sim.config.update(n=n, limit=limit, plus=plus)
     L = min(limit, noc)
     ctx = {"n": n, "limit": limit, "plus": plus}
+    prelude.warm_process(sim)
     with sim.guard("C14.constructor_raised"):
         m = GameRegretMinimizer(n, limit, plus)
     sim.op("construct", n, limit, plus)
@@ -109,6 +111,8 @@ def run(sim: Sim) -> None:
                 sim.fault("checkpoint_restart", t)
                 restarted = True
                 compare_twins(sim, m, twin, ctx, "after load")
+            if sim.flip(1, 8, "other-use"):
+                prelude.warm_process(sim, label="midrun")
             vals = draw_terminal(sim, len(leaves))
             iterate_checked(sim, m, vals, leaves, leaf_ids, internal, n, noc, L, plus, viable, ctx)
             sim.state(n, limit, plus, t, restarted)
